@@ -24,8 +24,8 @@ EXTENDS SybilRules, Json, IOUtils
 
 Recs == ndJsonDeserialize(IOEnv.TRACE)
 N == Len(Recs)
-VARIABLES l, cfg, pool, cands, drift, ndrift, n
-tvars == <<l, cfg, pool, cands, drift, ndrift, n>>
+VARIABLES l, cfg, pool, cands, drift, ndrift, n, namb      \* namb: steps after which a clock band left more than one candidate
+tvars == <<l, cfg, pool, cands, drift, ndrift, n, namb>>
 Ev == Recs[l]
 
 SeqSet(q) == {q[i] : i \in 1..Len(q)}
@@ -92,7 +92,9 @@ Outcomes(s) ==
 (* what the call itself returned *)
 RetOk(s) == IF Ev.op = "Cleanup" THEN Ev.panic = Cleanup(s, cfg, Lo, Hi).panic ELSE TRUE
 
-PreC == {s \in cands : Shows(s, Ev.pre)}
+(* `pre` is literally what the previous step showed as `post` (no query reads the clock): the candidates already show it *)
+PrevSame == l > 1 /\ LET r == Recs[l - 1] IN (r.ev = "Step" /\ "post" \in DOMAIN r /\ r.post = Ev.pre) \/ (r.ev = "Reset" /\ r.init = Ev.pre)
+PreC == IF PrevSame THEN cands ELSE {s \in cands : Shows(s, Ev.pre)}
 Base == IF PreC # {} THEN PreC ELSE {[s EXCEPT !.groups = ObsGroups(Ev.pre)] : s \in cands}
 Nexts == UNION {Outcomes(s) : s \in {x \in Base : RetOk(x)}}
 PostC == {s \in Nexts : Shows(s, Ev.post)}
@@ -100,7 +102,20 @@ AllNexts == UNION {Outcomes(s) : s \in Base}
 StepOk == PreC # {} /\ PostC # {}
 Resync == {[s EXCEPT !.groups = ObsGroups(Ev.post)] : s \in AllNexts}
 
-Init == l = 1 /\ cfg = NoCfg /\ pool = <<>> /\ cands = {Empty} /\ drift = <<>> /\ ndrift = 0 /\ n = 0
+(* ---- steps that do not involve the detector ---- *)
+DefaultOk == LET j == Ev.cfg IN [bthr |-> j.bthr, win_s |-> j.win_s, pthr |-> j.pthr, sim |-> j.sim, asym |-> j.asym, age_s |-> j.age_s, minobs |-> j.minobs] = DefaultCfgSecs
+ProfileOk == LET pr == ProfAfter(NewProfile, Ev.lats, Ev.sizes, 1) IN
+             /\ Len(Ev.lats) = Len(Ev.sizes) /\ Ev.obs = pr.obs /\ Ev.obs = Len(Ev.lats)
+             /\ Ev.nlat = Len(pr.lat) /\ Ev.nsize = Len(pr.size) /\ Ev.nvotes = VoteLen(Ev.nv)
+             /\ Ev.first_vote = (IF Ev.nv = 0 THEN -1 ELSE Ev.nv - VoteLen(Ev.nv))
+             /\ Ev.avg_lat = (IF pr.lat = <<>> THEN -1 ELSE Avg(pr.lat)) /\ Ev.avg_size = (IF pr.size = <<>> THEN -1 ELSE Avg(pr.size))
+             /\ LET q == [pr EXCEPT !.claimed = Ev.claimed, !.measured = Ev.measured] IN
+                  IF HasAsym(q) THEN Near(Ev.asym, AsymPm(q)) ELSE Ev.asym = -1
+             /\ Ev.has_claim = (Ev.claimed >= 0) /\ Ev.has_storage = (Ev.claimed >= 0) /\ Ev.has_measured = (Ev.measured >= 0)
+PureOps == {"Default", "Profile"}
+PureOk == IF Ev.op = "Default" THEN DefaultOk ELSE ProfileOk
+
+Init == l = 1 /\ cfg = NoCfg /\ pool = <<>> /\ cands = {Empty} /\ drift = <<>> /\ ndrift = 0 /\ n = 0 /\ namb = 0
 Note(what) == /\ ndrift' = ndrift + 1
               /\ drift' = IF Len(drift) < 20 THEN Append(drift, [line |-> l, op |-> what]) ELSE drift
 Next == /\ l <= N /\ l' = l + 1
@@ -111,11 +126,13 @@ Next == /\ l <= N /\ l' = l + 1
                                          /\ \A x \in t : ~Ev.init.susp[x] /\ Ev.init.risk[x] = 0
                                       THEN UNCHANGED <<drift, ndrift>> ELSE Note("init")
              [] Ev.ev = "Step" -> /\ n' = n + 1 /\ UNCHANGED <<cfg, pool>>
-                                  /\ IF ~Valid THEN UNCHANGED cands /\ Note(Ev.op)
+                                  /\ IF Ev.op \in PureOps THEN UNCHANGED cands /\ (IF PureOk THEN UNCHANGED <<drift, ndrift>> ELSE Note(Ev.op))
+                                     ELSE IF ~Valid THEN UNCHANGED cands /\ Note(Ev.op)
                                      ELSE IF StepOk THEN cands' = PostC /\ UNCHANGED <<drift, ndrift>>
                                      ELSE cands' = (IF PostC # {} THEN PostC ELSE IF Resync # {} THEN Resync ELSE cands) /\ Note(Ev.op)
              [] Ev.ev = "Panic" -> Note("panic") /\ UNCHANGED <<cfg, pool, cands, n>>
              [] OTHER -> UNCHANGED <<cfg, pool, cands, drift, ndrift, n>>
+        /\ namb' = namb + (IF Cardinality(cands') > 1 THEN 1 ELSE 0)
 Spec == Init /\ [][Next]_tvars
-Report == (l = N + 1) => JsonSerialize(IOEnv.OUT, [consumed |-> l - 1, total |-> N, nviol |-> ndrift, checked |-> n, viol |-> drift])
+Report == (l = N + 1) => JsonSerialize(IOEnv.OUT, [consumed |-> l - 1, total |-> N, nviol |-> ndrift, checked |-> n, viol |-> drift, ambiguous |-> namb])
 =============================================================================
